@@ -163,6 +163,31 @@ func goid() uint64 {
 	return id
 }
 
+// entryFunc is the function the calling goroutine was started with (last frame of its stack).
+func entryFunc() string {
+	buf := make([]byte, 16<<10)
+	n := runtime.Stack(buf, false)
+	lines := strings.Split(string(buf[:n]), "\n")
+	fn := "?"
+	for _, l := range lines[1:] {
+		if strings.HasPrefix(l, "created by ") {
+			break
+		}
+		if l == "" || l[0] == '\t' {
+			continue
+		}
+		fn = l
+		if i := strings.LastIndex(fn, "("); i > 0 {
+			fn = fn[:i]
+		}
+	}
+	if i := strings.LastIndex(fn, "/"); i >= 0 {
+		fn = fn[i+1:]
+	}
+
+	return fn
+}
+
 func (k *Kernel) self(create bool, base string) *Gor {
 	id := goid()
 	k.mu.Lock()
@@ -170,7 +195,10 @@ func (k *Kernel) self(create bool, base string) *Gor {
 	g := k.gors[id]
 	if g == nil {
 		if base == "" {
-			base = "anon"
+			// a library goroutine that never named itself (code newer than the hooks): it is
+			// named after the function it runs, so that schedules stay repeatable as long as no
+			// two of them are born between two yield points of their parent
+			base = "anon:" + entryFunc()
 			k.anon++
 		}
 		k.roleSeq[base]++
